@@ -28,6 +28,7 @@ EXPLANATION = (
     "coefficient block into the BlockMatrix depends on the presence of the block's key in the coefficient mapping and on no other "
     "condition on that key. R12.10: _compress_rank's Cholesky route (assume_full_rank=True) is taken only at the sites of a frozen "
     "who-may-call table (sampling), never by value-preserving compression."
+    ' R12.3 also reads every other return of Gaussian + Gaussian: a Gaussian rebuilt from one operand rescales white_vec and prec_sqrt by the same factor. R12.11 (= C04 R04.25): the set algebra of affine_inputs. R12.12: two concatenations of per-input blocks that are multiplied with each other iterate the same sequence with the same filter.'
 )
 ASSUMPTIONS = ["constructor conversions, substitution, rank compression and every numerical value are not decided"]
 RULE_TEXT = "one obligation per bookkeeping loop / fusion step"
